@@ -205,11 +205,11 @@ let ref_of_sx = function
   | L [A "h"; o] -> RHog (nat_of_sx o)
   | _ -> failwith "ref"
 
-let do_load (use_internal : bool) (t : stree) (d : doc) (flt : pfilter option) : sx =
+let do_load ?(oma = false) (use_internal : bool) (t : stree) (d : doc) (flt : pfilter option) : sx =
   match build_taxonomy use_internal t with
   | Err e -> L [A "taxerr"; sx_err e]
   | Ok t' ->
-      match (match flt with None -> load t' d | Some f -> load_filtered t' f d) with
+      match (match flt with None -> if oma then load_oma t' d else load t' d | Some f -> load_filtered t' f d) with
       | Err e -> L [A "err"; sx_err e; L [A "tree"; sx_tree t']]
       | Ok l ->
           let s = l.l_state in
@@ -274,6 +274,7 @@ let do_cmd (t : stree) (fo : forest) (c : sx) : sx =
 let handle (x : sx) : sx =
   match x with
   | L [A "load"; ui; t; d] -> do_load (bool_of_sx ui) (tree_of_sx t) (doc_of_sx d) None
+  | L [A "load_oma"; ui; t; d] -> do_load ~oma:true (bool_of_sx ui) (tree_of_sx t) (doc_of_sx d) None
   | L [A "loadf"; ui; t; d; L [A "filter"; L hs; L es; L is]] ->
       do_load (bool_of_sx ui) (tree_of_sx t) (doc_of_sx d)
         (Some { pf_hogs = List.map str_of_sx hs; pf_ext = List.map str_of_sx es; pf_int = List.map str_of_sx is })
